@@ -332,6 +332,7 @@ type Event struct {
 type vpassCfg struct {
 	untrusted  map[int]bool // parameter indices (incl. receiver) that are untrusted
 	lenTrusted map[int]bool // untrusted parameters whose *length* is nevertheless fixed by the caller (slice literals)
+	fixedIn    map[string]bool // paths (callee parameter space) whose length the caller has already fixed against trusted data
 }
 
 type vpassResult struct {
@@ -442,6 +443,9 @@ func (e *vpassEngine) Analyze(fn *ssa.Function, cfg vpassCfg, depth int) *vpassR
 	for i := range cfg.lenTrusted {
 		ut = append(ut, fmt.Sprintf("L%d", i))
 	}
+	for k := range cfg.fixedIn {
+		ut = append(ut, "F"+k)
+	}
 	sort.Strings(ut)
 	ck := FuncName(fn) + "|" + strings.Join(ut, ",")
 	if fn.Origin() != nil && fn.Origin() != fn {
@@ -521,6 +525,9 @@ func (e *vpassEngine) Analyze(fn *ssa.Function, cfg vpassCfg, depth int) *vpassR
 	}
 	fixedAt := func(b *ssa.BasicBlock) map[string]bool {
 		m := map[string]bool{}
+		for k := range cfg.fixedIn {
+			m[k] = true
+		}
 		for _, l := range lgs {
 			if len(l.pass.Preds) == 1 && (l.pass == b || l.pass.Dominates(b)) {
 				for _, p := range l.paths {
@@ -612,7 +619,18 @@ func (e *vpassEngine) Analyze(fn *ssa.Function, cfg vpassCfg, depth int) *vpassR
 				continue
 			}
 			// trust of callee parameters from the call-site arguments
-			ccfg := vpassCfg{untrusted: map[int]bool{}, lenTrusted: map[int]bool{}}
+			ccfg := vpassCfg{untrusted: map[int]bool{}, lenTrusted: map[int]bool{}, fixedIn: map[string]bool{}}
+			// lengths already fixed by the caller, rewritten into the callee's parameter space
+			for fp := range fixedAt(call.Block()) {
+				for i, a := range call.Call.Args {
+					ad := Desc(a)
+					if fp == ad {
+						ccfg.fixedIn[fmt.Sprintf("$%d", i)] = true
+					} else if isPathPrefix(ad, fp) && pureParamPath.MatchString(normIdx(ad)) {
+						ccfg.fixedIn[fmt.Sprintf("$%d", i)+fp[len(ad):]] = true
+					}
+				}
+			}
 			var argDescs []string
 			for i, a := range call.Call.Args {
 				argDescs = append(argDescs, Desc(a))
